@@ -1196,12 +1196,9 @@ def classify(s, res=None):
                     return None
                 idx.append(int(mm.group(1)))
         if idx and all(0 <= i < len(objs) and not _nonperiodic(objs[i]) for i in idx):
-            if k == 'svg':
-                # one broken curve spoils the drawing-wide similarity estimate or the whole file
-                if any(_split_broken(sp, objs[i], 4) for i in idx):
-                    return 'periodic-seam-split'
-            elif all(_split_broken(sp, objs[i]) for i in idx):
-                return 'periodic-seam-split'
+            # (`periodic-seam-split` is fixed with periodic insert_knot: a failure on a periodic object is an
+            #  unexplained violation again)
+            pass
     return None
 
 
